@@ -256,16 +256,6 @@ def guards_ok(net):
     return len(net.inputs) >= 2 and len(set(net.output)) == len(net.output) and all(ix in used for ix in net.output)
 
 
-def observe_program(case):
-    """Real program (serialised) + the real tree's orientation + traversal positions."""
-    net, tree = build_tree(case)
-    order = make_order(case["order"], case["seed"])
-    contractions = cmod.extract_contractions(tree, order, case["prefer_einsum"])
-    prog = serialise_program(contractions)
-    bt = gen.bt_of_real(tree)
-    return net, tree, prog, bt
-
-
 def internal_index(bt):
     """leaf-set -> position in the Lean `BT.internal` list (children first, left before right)."""
     out = []
@@ -297,10 +287,17 @@ def value_check(case, net, tree):
 
 
 def check_case(ctx, drv, case, eval_model=True):
-    net, tree, prog, bt = observe_program(case)
+    removed = list(case.get("slice") or [])
+    try:
+        net, tree = build_tree(case)
+    except Exception as e:
+        ctx.case(case, nontrivial=False)
+        ctx.violation({"site": "ContractionTree.from_path/remove_ind/sort_contraction_indices", "kind": "raises"},
+                      {"case": case, "observed": repr(e)[:200]},
+                      "the tree of a valid contraction cannot be built: " + repr(e)[:160])
+        return False
     feats = net.features()
     n = len(net.inputs)
-    removed = list(case.get("slice") or [])
     for f in feats:
         ctx.count("feature:" + f)
     ctx.count("ntensors:%d" % n)
@@ -309,6 +306,25 @@ def check_case(ctx, drv, case, eval_model=True):
     ctx.count("sort:%s" % case["sort"])
     ctx.count("impl:" + case["impl"])
     ctx.count("sliced_inds:%d" % len(removed))
+
+    # ---- implementation-side oracle: value and axis order against the dense reference -------
+    bad, arrays, (oshape, res) = value_check(case, net, tree)
+    if bad is not None:
+        ctx.case(case, nontrivial=n >= 3)
+        ctx.violation({"site": "ContractionTree.contract", "kind": "value-or-axis-order"},
+                      {"case": case, "observed": bad},
+                      "tree.contract differs from the dense einsum reference: " + bad)
+        return False
+
+    # ---- the real program ------------------------------------------------------------------
+    try:
+        order = make_order(case["order"], case["seed"])
+        prog = serialise_program(cmod.extract_contractions(tree, order, case["prefer_einsum"]))
+        bt = gen.bt_of_real(tree)
+    except Exception as e:
+        ctx.case(case, nontrivial=n >= 3)
+        ctx.corr_broken("the real program cannot be extracted / serialised: %r" % (e,), case)
+        return True
     ctx.count("steps:tensordot", sum(1 for s in prog["steps"] if s["tdot"]))
     ctx.count("steps:tensordot+perm", sum(1 for s in prog["steps"] if s["tdot"] and s["perm"]))
     ctx.count("steps:einsum", sum(1 for s in prog["steps"] if not s["tdot"]))
@@ -317,14 +333,6 @@ def check_case(ctx, drv, case, eval_model=True):
     nontrivial = n >= 3 and (bool(set(feats) & {"hyper", "repeated", "dangling", "scalar", "disconnected",
                                                  "size1"}) or has_perm or bool(removed))
     ctx.case(case, nontrivial=nontrivial)
-
-    # ---- implementation-side oracle: value and axis order against the dense reference -------
-    bad, arrays, (oshape, res) = value_check(case, net, tree)
-    if bad is not None:
-        ctx.violation({"site": "ContractionTree.contract", "kind": "value-or-axis-order"},
-                      {"case": case, "observed": bad},
-                      "tree.contract differs from the dense einsum reference: " + bad)
-        return False
 
     # ---- (A) the real program is certified by the Lean checker ----------------------------
     resp = drv.call("c01.admissible", net=case["net"], removed=removed, tree=bt, program=prog)
@@ -430,7 +438,7 @@ def run(ctx, drv):
         if not replay(ctx, obj):
             ctx.violation({"site": "corpus", "file": os.path.basename(f)}, obj,
                           "corpus case fails again: " + os.path.basename(f))
-    ncases = 2500 if ctx.tier == "quick" else 30000
+    ncases = 2500 if ctx.tier == "quick" else 80000
     skipped = 0
     done = 0
     while done < ncases:
@@ -444,7 +452,7 @@ def run(ctx, drv):
         check_case(ctx, drv, case)
     ctx.count("skipped_by_guard", skipped)
     if ctx.tier == "thorough":
-        all_trees_cases(ctx, drv, ctx.rng, 150)
+        all_trees_cases(ctx, drv, ctx.rng, 300)
 
 
 def failing(case):
@@ -508,5 +516,15 @@ def search(ctx):
 
 
 def replay(ctx, obj):
-    case = obj["case"]
-    return failing(case) is None
+    """Re-execute a replay on /repo with the implementation-side oracle only (no model):
+    True = the property holds on this input."""
+    case = obj.get("case")
+    if case is None:
+        # a `no-failing-input-found` record names an obligation, not an input
+        print("replay: this record names an undischarged obligation; there is no input to re-execute")
+        return True
+    try:
+        return failing(case) is None
+    except Exception as e:  # the real code cannot even build the tree / program
+        print("replay: raises", repr(e)[:200])
+        return False
